@@ -210,8 +210,18 @@ def sweepSetup : List St :=
 
 /-! ### the initial fill -/
 
-/-- the node of the observer-row cell `(vp_row, i)`: three bearings, three gradients, the key; the `- 2π` adjustment; insert -/
-def fillCore (ins : St) : St :=
+/-- after the node of an initial cell is complete: the assertion on the centre bearing, the `- 2π` adjustment of the entering
+    bearing, an idle row, the insertion -/
+def fillTail (ins : St) : St :=
+  (.seq (.ite (.cmpF .eq (.ld1 "status_node" (.lit 5)) (.ofInt (.lit 0))) .skip (.fail "AssertionError"))
+  (.seq (.ite (.cmpF .gt (.ld1 "status_node" (.lit 4)) (.ld1 "status_node" (.lit 5)))
+    (.stF1 "status_node" (.lit 4) (.bin .sub (.ld1 "status_node" (.lit 4)) (.bin .mul (.ofInt (.lit 2)) .pi)))
+    .skip)
+  (popCall "_pop14$"
+  (insCall "_insert_into_tree15$" ins))))
+
+/-- the node of the observer-row cell `(vp_row, i)`: three bearings, three gradients, the key -/
+def fillNode (rest : St) : St :=
   (.seq (.setI "e_type" (.lit 1))
   (posCallI "_calc_event_pos5$" (.var "e_type") (.var "e_row") (.var "e_col")
   (angCall "_calculate_angle6$" 4
@@ -224,12 +234,9 @@ def fillCore (ins : St) : St :=
   (posCallI "_calc_event_pos11$" (.var "e_type") (.var "e_row") (.var "e_col")
   (angCall "_calculate_angle12$" 6
   (gradCall "_calc_event_grad13$" (.var "e_elev_2") 3
-  (.seq (.ite (.cmpF .eq (.ld1 "status_node" (.lit 5)) (.ofInt (.lit 0))) .skip (.fail "AssertionError"))
-  (.seq (.ite (.cmpF .gt (.ld1 "status_node" (.lit 4)) (.ld1 "status_node" (.lit 5)))
-    (.stF1 "status_node" (.lit 4) (.bin .sub (.ld1 "status_node" (.lit 4)) (.bin .mul (.ofInt (.lit 2)) .pi)))
-    .skip)
-  (popCall "_pop14$"
-  (insCall "_insert_into_tree15$" ins))))))))))))))))
+  rest))))))))))))
+
+def fillCore (ins : St) : St := fillNode (fillTail ins)
 
 def fillBody (ins : St) : St :=
   (.seq initNode
@@ -249,9 +256,21 @@ def fillLoop (ins : St) : St := .forRange "i" (.bin .add (.var "vp_col") (.lit 1
 def rct (k : Int) : IE := .ld2 "event_rcts" (.var "row$e_rct") (.lit k)
 def ae (k : Int) : FE := .ld2 "event_aes" (.var "row$e_ae") (.lit k)
 
-/-- ENTER: build the node of the cell from the event record (entering bearing as stored, the others recomputed), adjust
-    the bearings across the east ray, take an idle row, insert -/
-def enterBranch (ins : St) : St :=
+/-- after the node of an entering cell is complete: the bearing adjustments across the east ray, an idle row, the insertion -/
+def enterTail (ins : St) : St :=
+  (.seq (.ite (.cmpF .lt (ae 0) .pi)
+    (.ite (.cmpF .gt (.ld1 "status_node" (.lit 4)) (.ld1 "status_node" (.lit 5)))
+      (.stF1 "status_node" (.lit 4) (.bin .sub (.ld1 "status_node" (.lit 4)) (.bin .mul (.ofInt (.lit 2)) .pi)))
+      .skip)
+    (.ite (.cmpF .gt (.ld1 "status_node" (.lit 4)) (.ld1 "status_node" (.lit 5)))
+      (.seq (.stF1 "status_node" (.lit 5) (.bin .add (.ld1 "status_node" (.lit 5)) (.bin .mul (.ofInt (.lit 2)) .pi)))
+      (.stF1 "status_node" (.lit 6) (.bin .add (.ld1 "status_node" (.lit 6)) (.bin .mul (.ofInt (.lit 2)) .pi))))
+      .skip))
+  (popCall "_pop44$"
+  (insCall "_insert_into_tree45$" ins)))
+
+/-- ENTER: build the node of the cell from the event record (entering bearing as stored, the others recomputed) -/
+def enterNode (rest : St) : St :=
   (posCallI "_calc_event_pos36$" (rct 2) (rct 0) (rct 1)
   (.seq (.stF1 "status_node" (.lit 4) (ae 0))
   (gradCall "_calc_event_grad37$" (ae 1) 1
@@ -264,16 +283,9 @@ def enterBranch (ins : St) : St :=
   (angCall "_calculate_angle42$" 6
   (gradCall "_calc_event_grad43$" (ae 3) 3
   (.seq (.stI2 "event_rcts" (.var "row$e_rct") (.lit 2) (.lit 1))
-  (.seq (.ite (.cmpF .lt (ae 0) .pi)
-    (.ite (.cmpF .gt (.ld1 "status_node" (.lit 4)) (.ld1 "status_node" (.lit 5)))
-      (.stF1 "status_node" (.lit 4) (.bin .sub (.ld1 "status_node" (.lit 4)) (.bin .mul (.ofInt (.lit 2)) .pi)))
-      .skip)
-    (.ite (.cmpF .gt (.ld1 "status_node" (.lit 4)) (.ld1 "status_node" (.lit 5)))
-      (.seq (.stF1 "status_node" (.lit 5) (.bin .add (.ld1 "status_node" (.lit 5)) (.bin .mul (.ofInt (.lit 2)) .pi)))
-      (.stF1 "status_node" (.lit 6) (.bin .add (.ld1 "status_node" (.lit 6)) (.bin .mul (.ofInt (.lit 2)) .pi))))
-      .skip))
-  (popCall "_pop44$"
-  (insCall "_insert_into_tree45$" ins)))))))))))))))
+  rest))))))))))))
+
+def enterBranch (ins : St) : St := enterNode (enterTail ins)
 
 /-- EXIT: delete the cell's node, push its row onto the idle stack -/
 def exitBranch (del : St) : St :=
